@@ -12,12 +12,13 @@ CLAIMED = {
          'unpickling an existing held row raises instead of creating a second instance (C04_unpickle_no_duplicate); without unpickling a '
          'deleted row is never handed out, cache on or off (C04_deleted_not_returned_partial); a destroyed instance is never registered '
          '(C04_cached_is_current). Model/OrmPaths.v adds the access paths through another object -- a foreign-key attribute (read the key, then get) and a '
-         'MultipleJoin accessor (select the referencing ids, then get each) -- and every theorem is re-proved for histories with them (C04_paths_*, '
-         'C04_fk_returns_held, C04_join_returns_held, C04_join_yields_referencing_rows) and for histories in which any operation runs with a database '
+         'MultipleJoin accessor (select the referencing ids, then get each) -- and the unique-index lookup (DatabaseIndex(unique=True).get = selectBy().getOne()); '
+         'every theorem is re-proved for histories with them (C04_paths_*, '
+         'C04_fk_returns_held, C04_join_returns_held, C04_join_yields_referencing_rows, C04_index_returns_held, C04_index_yields_row, C04_index_absent) and for histories in which any operation runs with a database '
          'error injected at any statement (C04_*_with_faults). The two open findings (expire purges the map; unpickling a destroyed row) carry refutation witnesses. The model is tied to the code by '
          'running it (vm_compute) against the real SQLObject after every operation, incl. identity tokens and cache contents.'),
    note=('Trusted: Coq kernel; the hand-written model Model/Orm.v (validated only by the correspondence); CPython refcounting and sqlite '
-         'modelled; access paths in the model: get, select, alternate id, unpickle, create, foreign key by id, MultipleJoin; the descriptors\' own glue '
+         'modelled; access paths in the model: get, select, alternate id, unique index, unpickle, create, foreign key by id, MultipleJoin; the descriptors\' own glue '
          '(refColumn keys, SingleJoin, RelatedJoin, per-instance connections, Transactions) is exercised by an oracle-only relation stream with real '
          'descriptors in three connection modes. Guard: histories without expire/expireAll/cache.clear()/raw SQL (injected faults are admitted by the '
          '*_with_faults theorems).'),
@@ -275,10 +276,11 @@ CLAIMED = {
    text=('Machine-checked proof (Coq 8.16.1) that, for every list of rows, every chain of slices with arbitrary integer or omitted '
          'bounds, an optional final index or limit(n), and each of the sqlite/mysql/postgres LIMIT/OFFSET renderings, the library\'s '
          'window arithmetic followed by the dialect\'s LIMIT/OFFSET semantics yields exactly what Python list slicing yields '
-         '(C10_chain, C10_index, C10_limit). The arithmetic the theorems talk about is re-translated from /repo\'s source on every run '
+         '(C10_chain, C10_index, C10_limit); the constructor form Cls.select(limit=k), k >= 0, followed by any such chain equals the same chain on the first k rows '
+         '(C10_ctor_limit_chain/_index/_limit; the window the constructor sets is regenerated from SelectResults.__init__). The arithmetic the theorems talk about is re-translated from /repo\'s source on every run '
          '(Tie A), and the model is run against the real SQLObject on sqlite over an exhaustive small scope (Tie B).'),
    note=('Trusted: Coq kernel; tools/py2coq + Lib/PyLite.v (Python fragment semantics); Model/Slice.v meaning of LIMIT/OFFSET per dialect '
-         '(sqlite validated by execution, mysql/postgres transcribed); slice.step is None; MySQL constants above 2^64-1 not modelled; '
+         '(sqlite validated by execution, mysql/postgres transcribed); slice.step is None; a negative constructor limit= is outside; MySQL constants above 2^64-1 not modelled; '
          'ORDER BY-before-LIMIT observed, not proved.'),
    technique='Coq proof over regenerated (py2coq) window arithmetic + vm_compute correspondence against sqlite',
    design='3/C10'),
